@@ -266,9 +266,13 @@ class Exec(HeapMixin, ExprMixin, CallMixin, StmtMixin):
         if self.focus is None:
             return None
         if key is None:
-            key = self.cur.key if self.cur is not None else ''
+            key = self._full_key(self.cur) if self.cur is not None else ''
         d = self.focus.get('deps') or {}
         return {self.focus['cid']} | set(d.get(key, ())) | set(d.get(key.split('#')[0], ()))
+
+    @staticmethod
+    def _full_key(c):
+        return c.key + (f'#{c.variant}' if getattr(c, 'variant', None) and '#' not in c.key else '')
 
     def in_focus(self, props, key=None):
         ft = self.focus_tags(key)
@@ -873,11 +877,11 @@ class Exec(HeapMixin, ExprMixin, CallMixin, StmtMixin):
                         terms = [t for _, t in self.spec_terms(mustp, env2)]
                         sink(z3.Not(z3.And(terms)))
                 if c.kind != 'abstract':
-                    self.callee_used.add(c.key)
+                    self.callee_used.add(self._full_key(c))
                 for tag, preds in c.ensures.items():
                     # an abstract (user-code / assumed) contract is an assumption as a whole; a checked callee's
                     # clause is a hypothesis only if this property's check discharges it
-                    if c.kind != 'abstract' and not self.in_focus([tag], c.key):
+                    if c.kind != 'abstract' and not self.in_focus([tag], self._full_key(c)):
                         continue
                     for pred in preds:
                         for label, term in self.spec_terms(pred, env2):
@@ -892,9 +896,9 @@ class Exec(HeapMixin, ExprMixin, CallMixin, StmtMixin):
                     self.assume(term)
             self.havoc(rd.get('modifies', []), env)
             if c.kind != 'abstract':
-                self.callee_used.add(c.key)
+                self.callee_used.add(self._full_key(c))
             for tag, preds in (rd.get('ensures') or {}).items():
-                if c.kind != 'abstract' and not self.in_focus([tag], c.key):
+                if c.kind != 'abstract' and not self.in_focus([tag], self._full_key(c)):
                     continue
                 for pred in preds:
                     for label, term in self.spec_terms(pred, env2):
